@@ -315,7 +315,7 @@ def run(facts, out):
                 ok = kind == 'noop'
                 out.add('DG-D2', body.path, 'expected:noop', where, ok,
                         '' if ok else 'section `%s` has no primary parser but this method is a %s' % (sec, kind),
-                        ordinal=False)
+                        {'trivial': True}, ordinal=False)
                 continue
             pstate = by_ty[prim].state
             if d.ty == prim:
@@ -326,7 +326,7 @@ def run(facts, out):
                 ok = kind == 'noop'
                 out.add('DG-D2', body.path, 'expected:noop', where, ok,
                         '' if ok else '`%s` does not contain the `%s` state but parse_%s is a %s'
-                        % (d.state, sec, sec, kind), ordinal=False)
+                        % (d.state, sec, sec, kind), {'trivial': True}, ordinal=False)
             else:
                 ok = kind == 'delegation' and path in [tuple(p) for p in paths]
                 why = ''
@@ -352,10 +352,17 @@ def run(facts, out):
     st = facts.items['statics']
     for s in st:
         bad = s['mut'] or not s['freeze'] or s['thread_local']
+        # exception (one reason): the `tracing` feature's event macros register a callsite static of a
+        # `tracing::` type; only tracing's own API can read it and it carries no parsing state
+        if bad and not s['mut'] and s['sp'].get('macro', '').startswith('tracing::') \
+                and s['ty'].get('adt', '').startswith('tracing::'):
+            out.add('DG-D7', s['path'], 'static', loc_of(s['sp']), True, '',
+                    {'exception': 'tracing callsite registration (logging only)', 'trivial': True}, ordinal=False)
+            continue
         out.add('DG-D7', s['path'], 'static', loc_of(s['sp']), not bad,
                 'mutable / interior-mutable / thread-local static: decoding would depend on more than the bytes'
                 if bad else '', ordinal=False)
-    out.add('DG-D7', facts.crate, 'statics-inventory', 'crate', True, '', {'statics': len(st)}, ordinal=False)
+    out.add('DG-D7', facts.crate, 'statics-inventory', 'crate', True, '', {'statics': len(st), 'trivial': True}, ordinal=False)
     import ed
     o2 = type(out)()
     dec, _enc = ed.decode_encode_roots(facts, o2)
@@ -377,7 +384,7 @@ def run(facts, out):
                 if s['k'] == 'assign' and s['rv']['k'] == 'other' and 'ThreadLocalRef' in s['rv'].get('s', ''):
                     out.add('DG-D7', b.path, 'thread-local', loc_of(s['sp']), False, 'thread-local read on the decode path')
     out.add('DG-D7', facts.crate, 'ambient-inventory', 'crate', True, '',
-            {'decode_path_bodies': len(dec_bodies)}, ordinal=False)
+            {'decode_path_bodies': len(dec_bodies), 'trivial': True}, ordinal=False)
     return cls, primaries, by_ty
 
 
